@@ -347,6 +347,39 @@ def replay_finding(c):
     return case, "OK " + X.render(once), still
 
 
+def acl_scope_cases(c):
+    """A default-scoped ACL spec and an access-scoped one for the SAME owner are different entries of the list: `-m d:u:alice:r`
+    on an entry that has `u:alice` must add a default ACE and leave the access ACE alone, `-x d:u:alice` must not remove
+    it, and the other way round (seeded C10-7: a matcher for which the empty flag set is contained in every flag set).
+    The random histories pair the two scopes of one owner about once in a hundred acl commands; these are always run."""
+    out = []
+    for tag, have, cmdspec in (
+            ("m-default", b":u:alice:allow:r,w,x", {"modify": (True, "u", "alice", ["r"]), "remove": None}),
+            ("x-default", b":u:alice:allow:r,w,x", {"modify": None, "remove": (True, "u", "alice", None)}),
+            ("m-access", b"d:u:alice:allow:r,w,x", {"modify": (False, "u", "alice", ["r"]), "remove": None}),
+            ("x-access", b"d:u:alice:allow:r,w,x", {"modify": None, "remove": (False, "u", "alice", None)})):
+        ex = [("faCl", b""), ("faCe", have), ("faCe", b":g:adm:allow:r")]
+        e = {"kind": 0, "name": "f", "data": b"hi", "comp": 0, "enc": 0, "mode": 0, "ctime": None, "mtime": None, "atime": None,
+             "perm": None, "xattrs": [], "extras": ex}
+        cmd = dict({"name": "acl", "patterns": ["*"], "exclude": []}, **cmdspec)
+        with cli.Sandbox("c10s") as sb:
+            p = sb.path("w.pna")
+            X.mkarchive([("entry", e)], p)
+            before, _ = cli.dump([p], X.PW)
+            r1 = cli.run_pna(X.argv(cmd, p, "keepsolid", None), cwd=sb.root)
+            after, _ = cli.dump([p], X.PW)
+        case = "\t".join(["apply", "keepsolid", "0", "acl", "%s,%s" % ("-" if cmd["modify"] is None else X.aclspec_case(cmd["modify"]),
+                                                                      "-" if cmd["remove"] is None else X.aclspec_case(cmd["remove"])), "1",
+                          X.hx("f"), "", X.render(before)])
+        aces = [bytes.fromhex(x[1]) for o in after if "solid_header" not in o for x in o["extras"] if x[0] == X.hx("faCe")]
+        if r1["rc"] == 0 and have not in aces:
+            c.violations.append(("oracle", "acl set (%s): the ACE %s of the other scope was changed or removed; ACEs afterwards: %s" % (tag, have.decode(), [a.decode() for a in aces]),
+                                 "entry f with faCl \"\", faCe %s, faCe :g:adm:allow:r ; command: %s" % (have.decode(), " ".join(X.argv(cmd, "w.pna", "keepsolid", None))), True))
+        out.append((case, ("OK " + X.render(after)) if r1["rc"] == 0 else "ERR"))
+        c.hist["acl: both scopes of one owner"] = c.hist.get("acl: both scopes of one owner", 0) + 1
+    return out
+
+
 def run(tier, seed, replay=None):
     c = Check("C10", tier, seed)
     c.rule = ("one evaluation = one step of an editing history: a generated archive (plain / solid / mixed / encrypted / encrypted solid / "
@@ -362,6 +395,8 @@ def run(tier, seed, replay=None):
     cases, outcomes, oracle = run_histories(c, rnd, STEPS.get(tier, 150))
     wcase, wout, still = replay_finding(c)       # the model must predict the first application of the witness too
     cases.append(wcase); outcomes.append(wout)
+    for ca, ou in acl_scope_cases(c):
+        cases.append(ca); outcomes.append(ou)
     c.correspondence_py("transform", cases, outcomes, oracle)
     return c.finish("proof", ["Coq 8.16.1 kernel and VM", "ExtrOcamlBasic extraction + modelrun/driver.ml",
                               "harness/src/bin/{mkarchive,dump,globtab}.rs", "vlib/cli.py, props/_xform.py (history generation, rendering)"])
